@@ -28,7 +28,7 @@ PID = "C09"
 PKG = "yv-c09"
 
 FAMILY = {"quick": "quick", "thorough": "thorough"}       # union families of spec/Redir.tla (q1..q4 / t1..t4)
-NEGATIVE = {"quick": ["leak"], "thorough": ["leak", "fwd", "savelow", "savenocx", "noclobberall", "closesrc",
+NEGATIVE = {"quick": ["leak", "movenoclose"], "thorough": ["leak", "movenoclose", "fwd", "savelow", "savenocx", "noclobberall", "closesrc",
                                             "keepall", "clobber"]}
 RANDOM_RUNS = {"quick": 1200, "thorough": 8000}
 FILE_OPS = ("in", "out", "clob", "app", "rw")
